@@ -256,3 +256,60 @@ Theorem v1_reader_on_garbage :
     (v1_load (idx, dat) s = RError /\ off <> 0 /\ blen dat < off + 4) \/
     exists n, v1_load (idx, dat) s = RData (bread dat (off + 4) n) /\ n <> O /\ off + 4 + Z.of_nat n <= blen dat.
 Proof. exact v1_reader_total. Qed.
+
+(* ---- life goes on after a failed store: everything above also holds from the weakly valid states (v2_WInv /
+   v1_WInv) that failed stores leave behind - further histories on the bundle, its defragmentation, and whole
+   caches some of whose bundles are only weakly valid. *)
+Theorem v2_history_after_failed_store :
+  forall ops f, v2_WInv f -> Forall (op_ok two24) ops -> blen f + ops_bytes ops < two40 ->
+    exists f', fold_left v2_step ops (Some f) = Some f' /\ v2_WInv f' /\ blen f' = blen f + ops_bytes ops.
+Proof. exact v2_w_history. Qed.
+
+Theorem v2_defrag_after_failed_store :
+  forall f, v2_WInv f -> blen f < two40 ->
+    exists r, v2_defrag f = Some r /\
+      (forall s, slot_ok s -> g_load_opt bfile v2_load r s = v2_load f s) /\
+      (forall f', r = Some f' -> v2_WInv f' /\ blen f' <= blen f).
+Proof. exact v2_w_defrag. Qed.
+
+Theorem v2_cache_with_failed_stores :
+  forall ops c b,
+    B2 <= b -> cache_ok v2_WInv blen b c -> Forall (cop_ok two24) ops -> b + cops_bytes ops < two40 ->
+    exists c', fold_left (c_step bfile v2_store1 v2_remove1 (fun _ => v2_init)) ops (Some c) = Some c' /\
+               cache_ok v2_WInv blen (b + cops_bytes ops) c'.
+Proof. exact v2c_w_history. Qed.
+
+Theorem v2_cache_defrag_with_failed_stores :
+  forall skip c b, b < two40 -> cache_ok v2_WInv blen b c ->
+    exists c', v2c_defrag skip c = Some c' /\
+      (forall coord, v2c_load c' coord = v2c_load c coord) /\
+      cache_ok v2_WInv blen b c' /\
+      (forall k f', In (k, f') c' -> exists f, In (k, f) c /\ blen f' <= blen f).
+Proof. exact v2c_w_defrag. Qed.
+
+Theorem v1_history_after_failed_store :
+  forall ops st, v1_WInv st -> Forall (op_ok two32) ops -> v1_dlen st + ops_bytes ops < two40 ->
+    exists st', fold_left v1_step ops (Some st) = Some st' /\ v1_WInv st' /\ v1_dlen st' = v1_dlen st + ops_bytes ops.
+Proof. exact v1_w_history. Qed.
+
+Theorem v1_defrag_after_failed_store :
+  forall c r st, v1_WInv st -> v1_dlen st < two40 ->
+    exists o, v1_defrag c r st = Some o /\
+      (forall s, slot_ok s -> g_load_opt v1st v1_load o s = v1_load st s) /\
+      (forall st', o = Some st' -> v1_WInv st' /\ v1_dlen st' <= v1_dlen st).
+Proof. exact v1_w_defrag. Qed.
+
+Theorem v1_cache_with_failed_stores :
+  forall ops c b,
+    B1 <= b -> cache_ok v1_WInv v1_dlen b c -> Forall (cop_ok two32) ops -> b + cops_bytes ops < two40 ->
+    exists c', fold_left (c_step v1st v1_store1 v1_remove1 v1_fresh) ops (Some c) = Some c' /\
+               cache_ok v1_WInv v1_dlen (b + cops_bytes ops) c'.
+Proof. exact v1c_w_history. Qed.
+
+Theorem v1_cache_defrag_with_failed_stores :
+  forall skip c b, b < two40 -> cache_ok v1_WInv v1_dlen b c ->
+    exists c', v1c_defrag skip c = Some c' /\
+      (forall coord, v1c_load c' coord = v1c_load c coord) /\
+      cache_ok v1_WInv v1_dlen b c' /\
+      (forall k st', In (k, st') c' -> exists st, In (k, st) c /\ v1_dlen st' <= v1_dlen st).
+Proof. exact v1c_w_defrag. Qed.
